@@ -198,6 +198,27 @@ def evaluate(formula, d, atoms):
     return "ok"
 
 
+def exact_integers(seed):
+    """A column labelled with a numeric variable holds that variable's values - exactly, also for integers no double represents."""
+    from formulae import design_matrices
+    rng = np.random.default_rng(seed)
+    n = 12
+    big = (2 ** 53 + 1 + 2 * rng.integers(0, 1000, size=n)).astype(np.int64)          # odd numbers above 2**53
+    d = pd.DataFrame({"y": np.arange(n), "big": big, "k": rng.integers(1, 9, size=n), "f": list("abc") * 4})
+    out = {}
+    for f, col in (("y ~ 0 + big", "big"), ("y ~ 0 + big + k", "big"), ("y ~ 0 + k + big", "big"), ("big ~ 0 + k", None)):
+        try:
+            dm = design_matrices(f, d)
+            M = np.asarray(dm.common.design_matrix) if col else np.asarray(dm.response.design_matrix)
+            j = list(dm.common.as_dataframe().columns).index(col) if col else 0
+            got = M.reshape(n, -1)[:, j]
+            out[f + " (integers above 2**53)"] = "ok" if [int(v) for v in got] == [int(v) for v in big] and got.dtype.kind in "iu" else \
+                f"label-value: column {col or 'response'} does not hold the integer values exactly (dtype {got.dtype})"
+        except Exception as ex:
+            out[f + " (integers above 2**53)"] = f"raise:{type(ex).__name__}"
+    return out
+
+
 def _chunk(task):
     import logging
     import warnings
@@ -214,6 +235,7 @@ def results(tier, seed):
     out = {}
     for r in par.pmap(_chunk, [(forms[i::64], seed) for i in range(64)]):
         out.update(r)
+    out.update(exact_integers(seed))
     return out
 
 
